@@ -812,3 +812,33 @@ package solver
 //@   requires wf: c != nil && !c.Learned() && c.lbdValue < 1073741824 && -1073741824 <= add && add <= 1073741824 && c.Cardinality() + add <= 1073741824
 //@   modifies c.lbdValue
 //@   ensures  card: c.Cardinality() == maxi(old(c.Cardinality()) + add, 1) && !c.Learned() && c.lbdValue < 1073741824
+
+// ---------------------------------------------------------------- DIMACS reader (C13, C01)
+
+// ParseCNF: every clause terminator read from the stream (readInt answers 0 without reaching the
+// end of the stream) appends exactly one clause, made of the literals read since the previous
+// terminator, in order; literals out of the declared range are refused. readInt, parseHeader and
+// the bufio reader are external here: what a token *is* (the byte level) is not specified.
+// readInt: the end of the stream is only reported when no number was read (a number that is the
+// last token of the stream is returned without error; the next call reports io.EOF). The byte
+// level itself (what the digits are worth) is not specified: bufio.Reader is external.
+//@ func readInt
+//@   requires nn: b != nil && r != nil
+//@   modifies *b
+//@   ensures  eof: err == io.EOF ==> res == 0
+
+//@ func ParseCNF
+//@   modifies nothing
+//@   assume-input after-call parseHeader#1 hdr: result2 == nil ==> 0 <= result0 && result0 <= 1073741823 && 0 <= result1
+//@   loop 1
+//@     invariant pb:   0 <= pb.NbVars && pb.NbVars <= 1073741823 && (pb.Clauses == nil || fresh(pb.Clauses))
+//@   loop 2
+//@     invariant pb:   0 <= pb.NbVars && pb.NbVars <= 1073741823 && (pb.Clauses == nil || fresh(pb.Clauses))
+//@   loop 3
+//@     invariant pb:   0 <= pb.NbVars && pb.NbVars <= 1073741823 && (pb.Clauses == nil || fresh(pb.Clauses))
+//@     invariant same: len(pb.Clauses) == entry3(len(pb.Clauses)) && sameArray(pb.Clauses, entry3(pb.Clauses))
+//@     invariant lits: fresh(lits) && forall(k, 0, len(lits), 0 <= lits[k] && lits[k] / 2 < pb.NbVars)
+//@   assert after-loop 3 term1: err == nil && val == 0 ==> len(pb.Clauses) == entry3(len(pb.Clauses)) + 1
+//@   assert after-loop 3 term2: err == nil && val == 0 ==> pb.Clauses[len(pb.Clauses) - 1] != nil
+//@   assert after-loop 3 term3: err == nil && val == 0 ==> pb.Clauses[len(pb.Clauses) - 1].lits == lits
+//@   assert after-loop 3 kept: forall(k, 0, entry3(len(pb.Clauses)), pb.Clauses[k] == entry3(pb.Clauses[k]))
